@@ -106,12 +106,12 @@ class Daemon:
         self.p = None
 
     def write_nss(self, db):
-        """db = {"groups": [(gid, [names])], "users": [(name, uid)]}"""
+        """db = {"groups": [(gid, [names])], "users": [(name, uid) | (name, uid, gecos_length)]}"""
         with open(self.nss_db + ".tmp", "w") as f:
             for gid, names in db.get("groups", []):
                 f.write("g %d %s\n" % (gid, ",".join(names) if names else "-"))
-            for name, uid in db.get("users", []):
-                f.write("u %s %d\n" % (name, uid))
+            for u in db.get("users", []):      # (name, uid) or (name, uid, gecos_length)
+                f.write("u %s %d%s\n" % (u[0], u[1], (" %d" % u[2]) if len(u) > 2 and u[2] else ""))
         os.replace(self.nss_db + ".tmp", self.nss_db)
 
     def sighup(self, settle=0.3):
